@@ -695,14 +695,45 @@ def stream_mixture_exploration(X):
         c.obligation('explore:mixture-over-old-format:' + kind, True, 'exploration', stats)
 
 
+def screen_overlays(dirs, ms_of, rng, nrandom):
+    """phase 1 of the two-crashes search (runs inside the guarded child): plain `pickle.load` on EVERY overlay
+    `new[:k] + old[k:m]`; returns the (direction, k, m) whose load does anything else than raising EOFError/UnpicklingError
+    (they "load" or fail inside a constructor: the candidates for the real code), most suspicious first, plus a random sample"""
+    cands = []
+    for new, old, tag in dirs:
+        for m in ms_of(old):
+            for k in range(1, m):
+                try:
+                    pickle.load(io.BytesIO(new[:k] + old[k:m])); rank = 0
+                except (EOFError, pickle.UnpicklingError):
+                    continue
+                except MemoryError:
+                    rank = 2
+                except Exception:
+                    rank = 1
+                cands.append((rank, len(cands) % 7, tag, k, m))
+    cands.sort()
+    out = [(tag, k, m) for _, _, tag, k, m in cands]
+    for new, old, tag in dirs:
+        for m in ms_of(old):
+            out += [(tag, rng.randrange(1, m), m) for _ in range(nrandom)]
+    return out
+
+
 def stream_two_crashes(X):
     """Two killed writers whose dumps of the SAME result differ (H3 fails): nutils topologies pickle 26 bytes longer when an
     equal topology is alive in the writing process (different sharing of interned sub-objects).  The files
     `take k new ++ drop k (take m old)` are reachable by two real kills; the REAL decorator is run on them (in a child
     with memory/time limits) and the uncached call is the oracle."""
     c = X.c
+    for seed in (1, 0):
+        _two_crashes_function(X, 'topo', seed)
+    _two_crashes_recursion(X)
+
+
+def _two_crashes_function(X, kind, seed):
+    c = X.c
     import gc
-    kind, seed = 'topo', c.rng.randrange(2)
     rl = treelog.RecordLog()
     with treelog.set(rl): emit_logs(kind, seed)
     ref = X.reference(kind, seed)
@@ -727,28 +758,27 @@ def stream_two_crashes(X):
         c.obligation('oracle:two-crashes', True, 'exploration', 'both writers dump the same %d bytes' % len(D1)); return
     d = X.newdir()
     path = os.path.join(d, ref['files'][0])
-    nscan = 120 if c.tier == 'quick' else 1200
-    budget = 10 if c.tier == 'quick' else 60
-    pairs = []
-    for new, old, tag in ((D1, D2, 'short-over-long'), (D2, D1, 'long-over-short')):
-        for m in (len(old) - 1, len(old) - 25, len(old) // 2):
-            lo = next(i for i, (x, y) in enumerate(zip(new, old)) if x != y and i >= 11)   # first difference after the PROTO/FRAME header
-            ks = sorted(set(k for k in list(range(max(1, lo - 5), min(m, lo + nscan))) + [c.rng.randrange(1, m) for _ in range(nscan // 4)] if 0 < k < m))
-            pairs.append([(tag, k, m, new[:k] + old[k:m]) for k in ks])
-    pairs = [x for grp in itertools.zip_longest(*pairs) for x in grp if x is not None]   # round robin over (direction, m)
+    budget = 7 if c.tier == 'quick' else 60
+    dirs = ((D1, D2, 'short-over-long'), (D2, D1, 'long-over-short'))
+    ms_of = (lambda old: (len(old) - 1, len(old) - 25)) if c.tier == 'quick' else (lambda old: (len(old) - 1, len(old) - 2, len(old) - 25, len(old) // 2))
+    byname = {tag: (new, old) for new, old, tag in dirs}
 
     def explore():
         stats = collections.Counter(); bad = []
         t_end = time.time() + budget
-        for tag, k, m, data in pairs:
+        cands = screen_overlays(dirs, ms_of, c.rng, 20 if c.tier == 'quick' else 300)
+        stats['screened-candidates'] = len(cands)
+        for tag, k, m in cands:
             if time.time() > t_end: stats['budget-cut'] += 1; break
-            write(path, data)
+            if len(bad) >= 5 and stats['checked'] >= 40: break
+            new, old = byname[tag]
+            write(path, new[:k] + old[k:m])
             try:
                 out, n, log, trace = real_call(d, kind, seed)
             except MemoryError:
                 out = ('exc', 'MemoryError', '')
             r = 'right' if out == ref['spec'] else 'WRONG-VALUE' if out[0] == 'ret' else 'raises ' + str(out[1])
-            stats[tag + ':' + r] += 1
+            stats[tag + ':' + r] += 1; stats['checked'] += 1
             if r != 'right' and len(bad) < 5: bad.append((tag, k, m, r, str(out[2:3])[:120]))
         return dict(stats), bad
     res = guarded(explore, seconds=budget + 60)
@@ -766,7 +796,12 @@ def stream_two_crashes(X):
                         'the entry `new[:%d] + old[%d:%d]` makes every later call %s instead of recomputing (cache.function neither truncates nor catches this exception)'
                         % (len(D1), len(D2), k, k, m, r), dict(stream='two-crashes', payload=kind, pseed=seed, direction=tag, k=k, m=m, outcome=r, message=msg, examples=bad, sizes=[len(D1), len(D2)]))
 
-    # ---- the same for an item file of a topology-valued Recursion
+
+def _two_crashes_recursion(X):
+    """the same for an item file of a topology-valued Recursion"""
+    c = X.c
+    budget = 7 if c.tier == 'quick' else 60
+    ms_of = (lambda old: (len(old) - 1, len(old) - 25)) if c.tier == 'quick' else (lambda old: (len(old) - 1, len(old) - 2, len(old) - 25, len(old) // 2))
     if not getattr(X, 'rec_encodings', None) or X.rec_encodings[0] == X.rec_encodings[1]:
         c.obligation('oracle:two-crashes:recursion', True, 'exploration', 'no two encodings of the item file available'); return
     R1, R2 = X.rec_encodings
@@ -776,23 +811,22 @@ def stream_two_crashes(X):
     real_iter(d, obj, 4)
     subs, files, names = rec_files(d, 3)
     path0 = os.path.join(d, subs[0], '0000')
-    rpairs = []
-    for new, old_, tag in ((R1, R2, 'short-over-long'), (R2, R1, 'long-over-short')):
-        for m in (len(old_) - 1, len(old_) - 25):
-            lo = next(i for i, (x, y) in enumerate(zip(new, old_)) if x != y and i >= 11)
-            ks = sorted(set(k for k in list(range(max(1, lo - 5), min(m, lo + nscan))) + [c.rng.randrange(1, m) for _ in range(nscan // 4)] if 0 < k < m))
-            rpairs.append([(tag, k, m, new[:k] + old_[k:m]) for k in ks])
-    rpairs = [x for grp in itertools.zip_longest(*rpairs) for x in grp if x is not None]
+    rdirs = ((R1, R2, 'short-over-long'), (R2, R1, 'long-over-short'))
+    rbyname = {tag: (new, old) for new, old, tag in rdirs}
 
     def explore_rec():
         stats = collections.Counter(); bad = []
         t_end = time.time() + budget
-        for tag, k, m, data in rpairs:
+        cands = screen_overlays(rdirs, ms_of, c.rng, 20 if c.tier == 'quick' else 300)
+        stats['screened-candidates'] = len(cands)
+        for tag, k, m in cands:
             if time.time() > t_end: stats['budget-cut'] += 1; break
-            write(path0, data)
+            if len(bad) >= 5 and stats['checked'] >= 40: break
+            new, old_ = rbyname[tag]
+            write(path0, new[:k] + old_[k:m])
             r = real_iter(d, obj, 4)
             res = 'right' if (r['items'], r['fin']) == (specrun['items'], specrun['fin']) else 'WRONG-SEQUENCE' if r['fin'] == specrun['fin'] else ' '.join(r['fin'].split()[:2])
-            stats[tag + ':' + res] += 1
+            stats[tag + ':' + res] += 1; stats['checked'] += 1
             if res != 'right' and len(bad) < 5: bad.append((tag, k, m, res))
         return dict(stats), bad
     res = guarded(explore_rec, seconds=budget + 60)
